@@ -8,6 +8,8 @@ import (
 	"errors"
 	"fmt"
 	"math/rand"
+	"os"
+	"path/filepath"
 	"sort"
 	"strings"
 
@@ -247,6 +249,10 @@ type program struct {
 	Src     string
 	EvalSrc string
 	evalVar string
+	ModSrc  string  // source of a module file used by the program
+	modName string  // its base name (without .elv)
+	modPath string  // set when the file has been written
+	Heads   []*span // pipeline of failing forms: expected innermost entry of each sub-exception
 	Chain   []*span // exception: expected stack trace, innermost first; nil = not fixed
 	Undef   []*span // compilation: the undefined variable tokens
 	Stray   int     // parse: offset of a stray closer, or -1
@@ -316,6 +322,47 @@ func genException(r *rand.Rand) *program {
 				chain = append(chain, s)
 			})
 		})
+	case mode == 18: // through a function of a module file (another named source)
+		q := newProg(r, 2, &uid)
+		q.fillers(0, 2)
+		q.w("fn f {|a|\n")
+		q.fillers(1, 2)
+		q.wrap(1, &chain, func(depth int) {
+			q.statement(depth, func(ind string) { chain = append(chain, q.failForm(ind)) })
+		})
+		q.w("}\n")
+		q.fillers(0, 2)
+		pr.ModSrc = q.sb.String()
+		pr.modName = fmt.Sprintf("m%d", p.id())
+		p.fillers(0, 2)
+		p.w("use " + pr.modName + "\n")
+		p.fillers(0, 2)
+		p.wrap(0, &chain, func(depth int) {
+			p.statement(depth, func(ind string) {
+				s := &span{Src: 0, From: p.pos(), What: "module function call form"}
+				p.w(pr.modName + ":f 好")
+				s.ToMin = p.pos()
+				p.pending = append(p.pending, s)
+				chain = append(chain, s)
+			})
+		})
+	case mode == 19 && r.Intn(2) == 0: // several failing forms in one pipeline
+		pr.Kind = "exception-pipeline"
+		p.fillers(0, 3)
+		var dummy []*span
+		p.wrap(0, &dummy, func(depth int) {
+			p.statement(depth, func(ind string) {
+				for k, n := 0, 2+r.Intn(2); k < n; k++ {
+					if k > 0 {
+						p.w([]string{"", " ", " \t"}[r.Intn(3)])
+						p.closeAt("|")
+						p.w([]string{"| ", "|\n" + ind + "  ", "|"}[r.Intn(3)])
+					}
+					pr.Heads = append(pr.Heads, p.failForm(ind))
+				}
+			})
+		})
+		chain = nil
 	default: // failing expression whose exact range no document fixes
 		pr.Kind = "exception-loose"
 		p.fillers(0, 3)
@@ -426,11 +473,12 @@ type errWitness struct {
 	Kind    string `json:"kind"`
 	Source  string `json:"source_quoted"`
 	EvalSrc string `json:"eval_source_quoted,omitempty"`
+	ModSrc  string `json:"module_source_quoted,omitempty"`
 	Detail  string `json:"detail"`
 }
 
 func (pr *program) wit(detail string) errWitness {
-	return errWitness{pr.Kind, mon.Q(pr.Src), mon.Q(pr.EvalSrc), detail}
+	return errWitness{pr.Kind, mon.Q(pr.Src), mon.Q(pr.EvalSrc), mon.Q(pr.ModSrc), detail}
 }
 
 // checkDiagErrors checks the contexts of unpacked parse / compilation errors.
@@ -479,56 +527,58 @@ func runErrors(c *mon.Case) {
 	if pr.evalVar != "" {
 		elv.SetVar(ev, pr.evalVar, pr.EvalSrc)
 	}
+	if pr.ModSrc != "" {
+		dir := filepath.Join(c.Dir, fmt.Sprintf("lib-%d", c.I))
+		os.MkdirAll(dir, 0o755)
+		defer os.RemoveAll(dir)
+		pr.modPath = filepath.Join(dir, pr.modName+".elv")
+		if err := os.WriteFile(pr.modPath, []byte(pr.ModSrc), 0o644); err != nil {
+			c.Inconclusive("cannot-write-module-file")
+			return
+		}
+		ev.LibDirs = []string{dir}
+	}
 	res := elv.Eval(ev, pr.Src)
 	c.Sample(pr.Kind, map[string]any{"source": mon.Q(pr.Src), "error": fmt.Sprint(res.Err)})
 	switch pr.Kind {
-	case "exception", "exception-loose":
+	case "exception", "exception-loose", "exception-pipeline":
 		var exc eval.Exception
 		if !errors.As(res.Err, &exc) {
 			c.Violation("gen:"+pr.Kind+":no-exception", fmt.Sprintf("generated program was expected to raise an exception, got %v", res.Err), pr.wit(""))
 			return
 		}
-		var entries []*diag.Context
-		for st := exc.StackTrace(); st != nil; st = st.Next {
-			entries = append(entries, st.Head)
-			if len(entries) > 100 {
-				break
-			}
-		}
-		if len(entries) == 0 {
-			c.Violation("trace:empty", "exception has no stack trace entry", pr.wit(""))
+		entries, ok := checkTrace(c, pr, exc, res.Err)
+		if !ok {
 			return
 		}
-		showAll := ""
-		if sh, ok := res.Err.(diag.Shower); ok {
-			showAll = stripAll(sh.Show(""), diag.ContextBodyStartMarker, diag.ContextBodyEndMarker)
-		}
-		for i, ctx := range entries {
-			var src string
-			switch {
-			case ctx.Name == srcName:
-				src = pr.Src
-			case strings.HasPrefix(ctx.Name, "[eval ") && pr.EvalSrc != "":
-				src = pr.EvalSrc
-			default:
-				c.Violation("trace:unknown-source", fmt.Sprintf("stack trace entry %d names source %q, which the program never evaluated", i, ctx.Name), pr.wit(""))
+		if pr.Kind == "exception-pipeline" {
+			pe, isPE := exc.Reason().(eval.PipelineError)
+			if !isPE {
+				c.Violation("gen:pipeline:no-pipeline-error", fmt.Sprintf("a pipeline of failing forms was expected to raise a pipeline error, got %v", res.Err), pr.wit(""))
 				return
 			}
-			if !checkCtx(c, "trace", ctx, ctx.Name, src) {
+			var subs []eval.Exception
+			for _, e := range pe.Errors {
+				if e != nil && e.Reason() != nil {
+					subs = append(subs, e)
+				}
+			}
+			if len(subs) != len(pr.Heads) {
+				c.Violation("trace:pipeline-errors", fmt.Sprintf("pipeline of %d failing forms reports %d failures", len(pr.Heads), len(subs)), pr.wit(""))
 				return
 			}
-			c.Count("trace_entry_contexts", 1)
-			if ctx.EndLine > ctx.StartLine {
-				c.Count("trace_entry_multi_line", 1)
-			}
-			if showAll != "" && !contains(src, "\x1b") {
-				desc := refDescribe(ctx.Name, ctx.StartLine, ctx.StartCol, ctx.EndLine, ctx.EndCol)
-				want := refShowPlain(desc, ctx.StartLine != ctx.EndLine, "  ", ctx.Head, ctx.Body, ctx.Tail)
-				if !contains(showAll, "\n  "+want) {
-					c.Violation("trace:exception-show", fmt.Sprintf("Show() of the exception does not contain the entry %q", want), pr.wit(showAll))
+			for i, e := range subs {
+				se, ok := checkTrace(c, pr, e, nil)
+				if !ok {
+					return
+				}
+				sp := pr.Heads[i]
+				if se[0].Name != srcName || se[0].From != sp.From || se[0].To < sp.ToMin || se[0].To > sp.ToMax {
+					c.Violation("trace:entry-range", fmt.Sprintf("failure %d of the pipeline should point at the %s at [%d,%d..%d), points at %s[%d,%d)", i, sp.What, sp.From, sp.ToMin, sp.ToMax, se[0].Name, se[0].From, se[0].To), pr.wit(entriesDesc(se)))
 					return
 				}
 			}
+			c.Count("trace_pipeline_failures_matched", len(subs))
 		}
 		if pr.Chain != nil {
 			if len(entries) != len(pr.Chain) {
@@ -537,8 +587,7 @@ func runErrors(c *mon.Case) {
 			}
 			for i, ctx := range entries {
 				sp := pr.Chain[i]
-				wantEval := sp.Src == 1
-				if wantEval != strings.HasPrefix(ctx.Name, "[eval ") {
+				if srcID(pr, ctx.Name) != sp.Src {
 					c.Violation("trace:entry-source", fmt.Sprintf("entry %d (%s) is attributed to source %q", i, sp.What, ctx.Name), pr.wit(entriesDesc(entries)))
 					return
 				}
@@ -554,6 +603,9 @@ func runErrors(c *mon.Case) {
 			}
 			if pr.EvalSrc != "" {
 				c.Count("trace_chains_through_eval", 1)
+			}
+			if pr.ModSrc != "" {
+				c.Count("trace_chains_through_module", 1)
 			}
 		}
 	case "compile":
@@ -629,6 +681,73 @@ func runErrors(c *mon.Case) {
 	}
 }
 
+// srcID maps a context name to the generator's source id (-1 = unknown).
+func srcID(pr *program, name string) int {
+	switch {
+	case name == srcName:
+		return 0
+	case strings.HasPrefix(name, "[eval ") && pr.EvalSrc != "":
+		return 1
+	case pr.modPath != "" && name == pr.modPath:
+		return 2
+	}
+	return -1
+}
+
+func (pr *program) source(id int) string {
+	switch id {
+	case 1:
+		return pr.EvalSrc
+	case 2:
+		return pr.ModSrc
+	}
+	return pr.Src
+}
+
+// checkTrace checks every stack trace entry of exc against the reference
+// (for the source the entry names) and returns the entries, innermost first.
+func checkTrace(c *mon.Case, pr *program, exc eval.Exception, shown error) ([]*diag.Context, bool) {
+	var entries []*diag.Context
+	for st := exc.StackTrace(); st != nil; st = st.Next {
+		entries = append(entries, st.Head)
+		if len(entries) > 100 {
+			break
+		}
+	}
+	if len(entries) == 0 {
+		c.Violation("trace:empty", "exception has no stack trace entry", pr.wit(""))
+		return nil, false
+	}
+	showAll := ""
+	if sh, ok := shown.(diag.Shower); ok {
+		showAll = stripAll(sh.Show(""), diag.ContextBodyStartMarker, diag.ContextBodyEndMarker)
+	}
+	for i, ctx := range entries {
+		id := srcID(pr, ctx.Name)
+		if id < 0 {
+			c.Violation("trace:unknown-source", fmt.Sprintf("stack trace entry %d names source %q, which the program never evaluated", i, ctx.Name), pr.wit(""))
+			return nil, false
+		}
+		src := pr.source(id)
+		if !checkCtx(c, "trace", ctx, ctx.Name, src) {
+			return nil, false
+		}
+		c.Count("trace_entry_contexts", 1)
+		if ctx.EndLine > ctx.StartLine {
+			c.Count("trace_entry_multi_line", 1)
+		}
+		if showAll != "" && !contains(src, "\x1b") {
+			desc := refDescribe(ctx.Name, ctx.StartLine, ctx.StartCol, ctx.EndLine, ctx.EndCol)
+			want := refShowPlain(desc, ctx.StartLine != ctx.EndLine, "  ", ctx.Head, ctx.Body, ctx.Tail)
+			if !contains(showAll, "\n  "+want) {
+				c.Violation("trace:exception-show", fmt.Sprintf("Show() of the exception does not contain the entry %q", want), pr.wit(showAll))
+				return nil, false
+			}
+		}
+	}
+	return entries, true
+}
+
 func chainDesc(ch []*span) string {
 	var parts []string
 	for _, s := range ch {
@@ -649,7 +768,7 @@ func Spec() *mon.Spec {
 	return &mon.Spec{
 		ID: "C37", Level: "exploration",
 		Rule: "phase contexts: a source of 0..12 lines (empty lines, with/without trailing newline, CR LF, multibyte and invalid bytes) and either every range of it (short sources) or 250 ranges biased to line boundaries; every field of diag.NewContext and the text of Show() are compared with a byte-loop reference written from the doc comments. " +
-			"phase errors: a generated multi-line program with one injected failure whose byte range the generator knows (fail form directly / inside nested blocks, lambdas, each / in a named function / in eval'd code; undefined variables; unclosed constructs and stray closers) is evaluated; every Context of the resulting parse errors, compilation errors and stack trace entries must agree with the reference for its own range, and the ranges must be the injected nodes; 3 damaged variants per program are parsed+compiled only. " +
+			"phase errors: a generated multi-line program with one injected failure whose byte range the generator knows (fail form directly / inside nested blocks, lambdas, each / in a named function / in eval'd code / in a function of a module file / several in one pipeline; undefined variables; unclosed constructs and stray closers) is evaluated; every Context of the resulting parse errors, compilation errors and stack trace entries must agree with the reference for its own range, and the ranges must be the injected nodes; 3 damaged variants per program are parsed+compiled only. " +
 			"Non-trivial = source with >= 3 lines and a multibyte character (contexts) / every distinct generated program (errors).",
 		Assumptions: []string{
 			"when the range, after dropping one trailing newline, still ends with a newline, both (line, len+1) and (line+1, 0) are accepted as end position (doc comments silent)",
@@ -666,7 +785,7 @@ func Spec() *mon.Spec {
 		Floors: map[string]int{"distinct_nontrivial": 2500, "contexts_checked": 300000, "ctx_empty": 70000, "ctx_ends_after_newline": 70000, "ctx_only_newline": 15000,
 			"ctx_multi_line": 120000, "ctx_multibyte_before_start": 70000, "ctx_at_eof": 25000, "ctx_not_first_line": 150000, "sources_all_ranges": 400,
 			"parse_error_contexts": 4000, "compile_error_contexts": 4000, "trace_entry_contexts": 1300, "trace_entry_multi_line": 400,
-			"trace_chains_matched": 700, "trace_chains_depth_ge2": 400, "trace_chains_through_eval": 150, "compile_programs_matched": 450,
+			"trace_chains_matched": 700, "trace_chains_depth_ge2": 400, "trace_chains_through_eval": 150, "trace_chains_through_module": 30, "trace_pipeline_failures_matched": 80, "compile_programs_matched": 450,
 			"compile_programs_multi_error": 300, "parse_eof_matched": 200, "parse_stray_matched": 100, "mutants_with_errors": 3500},
 	}
 }
